@@ -284,6 +284,17 @@ func HarnessC12Numbers() {
 	i, ok := got.(*object.Int)
 	vAssert(ok, "integer-of-any-width-becomes-a-template-integer")
 	vAssert(i.Value == want, "integer-keeps-its-value")
+	// numbers print as the equal literal would: base-10 digits of the value (magnitude bounded by the parameter D,
+	// 19 = every int64, because formatting a symbolic integer costs a path per digit count)
+	if d := vParam("D"); d < 19 {
+		lim := int64(1)
+		for i := 0; i < d; i++ {
+			lim *= 10
+		}
+		vAssume(want > -lim && want < lim)
+	}
+	out, err := EvaluateString("<{{ n }}>", map[string]any{"n": want})
+	vAssert(err == nil && vEqStr(out, "<"+strconv.FormatInt(want, 10)+">"), "integer-prints-in-base-10")
 	f := vFloat64("f")
 	fo, ok := object.NativeToObject(f).(*object.Float)
 	vAssert(ok && (fo.Value == f || (fo.Value != fo.Value && f != f)), "float-keeps-its-value")
